@@ -10,6 +10,11 @@ def heal(model, w, group):
     """Make every pair inside `group` connected, and cut every link between group and the
     rest. All steps are ordinary events."""
     ids = [n for n, _ in w.nodes if model.summary(w, n).alive]
+    for n in ids:
+        # a node that was just started has not run its first tick yet (it connects from its tick)
+        s = model.summary(w, n)
+        if len(s.extra) > 2 and ('fresh', 1) in s.extra:
+            w = model.apply(w, ('Z', n))
     rest = [n for n in ids if n not in group]
     for a in rest:
         for b in ids:
